@@ -33,6 +33,17 @@ class HeterCallbackListBase
 protected:
 	struct HeterHandle_
 	{
+		// A default constructed handle is empty and refers to no callback,
+		// the index must not be left indeterminate because remove() and insert() read it.
+		HeterHandle_() : index(0), homoHandle()
+		{
+		}
+
+		HeterHandle_(const int index, std::weak_ptr<void> homoHandle)
+			: index(index), homoHandle(std::move(homoHandle))
+		{
+		}
+
 		int index;
 		std::weak_ptr<void> homoHandle;
 
